@@ -12,13 +12,24 @@ const IDX_DB: i32 = 4;
 const IDX_GT: i32 = 5;
 const IDX_GQ: i32 = 6;
 
+/// Dictionary index of the i-th contig line. For about half of the call sets (decided by the data
+/// itself) the indices run against the header line order, as htslib allows with explicit IDX.
+pub fn contig_idx(cs: &CallSet, i: usize) -> usize {
+    let n = cs.contigs.len();
+    if n > 1 && cs.contigs[0].len() % 2 == 1 {
+        n - 1 - i
+    } else {
+        i
+    }
+}
+
 pub fn header_text(cs: &CallSet) -> String {
     let mut h = String::new();
     h.push_str("##fileformat=VCFv4.3\n");
     h.push_str(&format!("##FILTER=<ID=PASS,Description=\"All filters passed\",IDX={IDX_PASS}>\n"));
     h.push_str(&format!("##FILTER=<ID=q10,Description=\"Quality below 10\",IDX={IDX_Q10}>\n"));
     for (i, c) in cs.contigs.iter().enumerate() {
-        h.push_str(&format!("##contig=<ID={c},length=100000000,IDX={i}>\n"));
+        h.push_str(&format!("##contig=<ID={c},length=100000000,IDX={}>\n", contig_idx(cs, i)));
     }
     h.push_str(&format!("##INFO=<ID=DP,Number=1,Type=Integer,Description=\"Total depth\",IDX={IDX_DP}>\n"));
     h.push_str(&format!("##INFO=<ID=AF,Number=A,Type=Float,Description=\"Allele frequency\",IDX={IDX_AF}>\n"));
@@ -90,7 +101,10 @@ pub fn encode_gt(gt: &Gt, width: usize, out: &mut Vec<u8>) {
         let phased = if i == 0 { 0 } else { gt.phased[i - 1] as u8 };
         let v = match a {
             None => 0,
-            Some(a) => (*a + 1) << 1,
+            Some(a) => {
+                assert!(*a <= 62, "allele index {a} does not fit an int8 GT vector");
+                ((*a as u8) + 1) << 1
+            }
         };
         out.push(v | phased);
     }
@@ -160,7 +174,7 @@ pub fn record_bytes_with_gt_idx(cs: &CallSet, r: &Record, gt_idx: i32) -> Vec<u8
     }
 
     let mut shared = Vec::new();
-    shared.extend((r.contig as i32).to_le_bytes());
+    shared.extend((contig_idx(cs, r.contig) as i32).to_le_bytes());
     shared.extend(((r.pos - 1) as i32).to_le_bytes());
     shared.extend(1i32.to_le_bytes()); // rlen
     match r.qual {
